@@ -424,6 +424,19 @@ func Run(r *fw.Run) {
 			}
 		}
 	}
+	// siblings whose names are what an implementation might use for its own temporary or backup files
+	// (N.tmp, N~, .N.tmp, N.part ...), as files and as directories, in every order
+	{
+		mini := []string{"a", "a.tmp", "a.tmp/x", "a~", "a.bak", "a.new", "a.part", ".a.tmp", "a.tmp.tmp", "a.lock", "a.orig", "d/b.go", "d/b.go.tmp", "d/b.go.tmp/c", "d.tmp/e", "d.tmp"}
+		for i := range mini {
+			for j := range mini {
+				if i == j {
+					continue
+				}
+				jobs = append(jobs, job{goodMod, goodVers, []ent{mk(prefixes[0] + mini[i]), mk(prefixes[0] + mini[j])}})
+			}
+		}
+	}
 	// counts: archives with many entries, all valid, and with a colliding or badly prefixed one at the end
 	for _, n := range []int{9, 17, 63, 64, 65, 129, 1000} {
 		var es []ent
